@@ -27,7 +27,7 @@ def run(tier: str) -> int:
     if tier == "thorough":
         extra = sc.tables(wd, "A4")[0]
         recs = gens[0]["recs"] + extra["recs"] + r5["recs"] + gens[2]["recs"] + sc.tables(wd, "B5o")[0]["recs"]
-    n_orders = 2
+    n_orders = 3
     stats, fails = sc.replay(wd, "ci", recs, n_orders)
     seen = set()
     for f in fails:
